@@ -4,7 +4,7 @@ import io
 from harness import core, connlib, serverlib
 
 PROP = "C02"
-LEAN_MODULES = ["MpgsModel.Props.C02"]
+LEAN_MODULES = ["MpgsModel.Props.C02", "MpgsModel.Props.C02Loop"]
 MODEL_MODULES = ["MpgsModel.Model.Handshake", "MpgsModel.Model.ToyAead", "MpgsModel.Model.Server"]
 NS = "Mpgs.Conn."
 THEOREMS = [
@@ -14,8 +14,14 @@ THEOREMS = [
     (NS + "C02_promote_only_on_proof", "full"),
     (NS + "C02_honest_agree", "full"),
     (NS + "C02_server_hello_gate", "full"),
+    ("Mpgs.Server.C02_loop_connect_only_on_proof", "full"),
+    ("Mpgs.Server.C02_loop_connect_from_datagram", "full"),
 ]
 ASSUMPTIONS = [
+    "at the level of the server loop (C02_loop_connect_only_on_proof, C02_loop_connect_from_datagram): in every server state, a connect "
+    "event for an address is produced only while handling a queued datagram from that very address, typed CHALLENGE_RESP, exactly "
+    "header + length + tag long, that AES-GCM opened under the session key of that address's half-open entry and that carries a "
+    "CHALLENGE_RESP message decoding to the token issued to that entry; handler.update, the sweeps and the sends produce none",
     "EUF-CMA of ECDSA and secrecy of ECDH/HKDF are assumed outside Lean; the theorems hold for every instantiation of the external "
     "functions (Hs) and say exactly where the code relies on them: the client adopts a key only if `verify(pinned key, signature, payload)` "
     "accepted, the server promotes only on a datagram that AES-GCM opened under the connection's key and that carries the issued token",
